@@ -203,7 +203,7 @@ def part_heights(tier, seed, workdir, binary, only=None):
     res = {"mc": {}}
     try:
         if only is None:
-            w = 3 if tier == "quick" else 6
+            w = 3 if tier == "quick" else 5
             wk = 2 if tier == "quick" else 4
             bg = [Bg(lambda: ("C17:HeightsOrder", mc(d, "MC_HeightsOrder", "C17:HeightsOrder", dict(W=w), invariants=["Inv"], properties=["SuccIncreases"], workers=wk, timeout=3000,
                                                      need=["lt-by-revision", "lt-by-height", "equal", "gt-by-revision", "gt-by-height", "rollover"]))),
